@@ -35,7 +35,7 @@ open SaModel SaModel.Build SaModel.Spec
 (one exists: `exists_unstr`; the dictionary builder keeps strings, the documented value their UTF-8 bytes):
 `erase b' = pushL un lv (erase b)` where `lv = interpDT … x` — the right-hand side does not mention `x`.  State
 hypotheses: the WEAK state invariant `WFH` and `NoDictKey` of the hidden-rows refinement (Props/C01Obs.lean) — they hold of
-every state reached from a builder `build_builder` constructs, for EVERY schema, and are implied by the former hypotheses
+every state reached from a builder `build_builder` constructs, for EVERY schema, and are implied by the stronger
 `WFB`, `Safe` (`WFH_of_WFB`, `NoDictKey_of_Safe`): no `Safe`.  (Also the slots hidden below a null are determined by the
 documented values: the placeholder key 0 of a non-nullable-key dictionary is part of `pushL`.) -/
 theorem push_determined (ext : Ext) (un : Bytes → String) (hun : ∀ s, un (strBytes s) = s)
